@@ -45,8 +45,28 @@ def execute(p):
     raise ValueError(t)
 
 
+_ENVS = None
+
+
+def _envs(extra):
+    global _ENVS
+    if _ENVS is None:
+        _ENVS = [{k: ser.json_to_val(v) for k, v in env.items()} for env in extra["envs"]]
+    return _ENVS
+
+
 def drive_case(case, extra):
-    return {"id": case["id"], "p": case["p"], "res": ser.obj_to_json(lambda: execute(case["p"]))}
+    """Build the object with the real operators; then let the real evaluator say what the
+    built object means in every environment of the box (the tree's meaning is also computed
+    by the model - both must be the plain Python value of the program)."""
+    from pymbolic.mapper.evaluator import EvaluationMapper
+    from pymbolic.primitives import Expression
+    built = []
+    res = ser.obj_to_json(lambda: built.append(execute(case["p"])) or built[0])
+    ev = []
+    if res["r"] == "ok" and isinstance(built[0], Expression):
+        ev = [ser.call_to_json(lambda: EvaluationMapper(env)(built[0])) for env in _envs(extra)]  # noqa: B023
+    return {"id": case["id"], "p": case["p"], "res": res, "ev": ev}
 
 
 def classify(out, verdicts, byid):
@@ -88,12 +108,15 @@ def run(tier, seed, out):
     out.add_tlc(gen)
     printed = gen.printed()
     cases = [p for p in printed if "p" in p]
+    envs = [p["envs"] for p in printed if "envs" in p]
+    if len(envs) != 1:
+        raise kit.MachineryError("C03 generator printed no environments")
     design = [p for p in printed if "design" in p]
     for i, c in enumerate(cases):
         c["id"] = i
     kit.log(f"C03: TLC generated {len(cases)} operator programs ({gen.wall:.1f}s); "
             f"{len(design)} programs fail on the model (design-level classes)")
-    recs = kit.drive("harness.c03", "drive_case", cases, None, chunk=500)
+    recs = kit.drive("harness.c03", "drive_case", cases, {"envs": envs[0]}, chunk=500)
     out.evaluations += len(recs)
 
     def corrupt(r):      # the built object replaced by "object + 1"
@@ -115,7 +138,7 @@ def run(tier, seed, out):
                 "plus unary, constructor-method, ordering, call/subscript/attribute programs; "
                 "each judged in 7 environments; non-trivial = not a bare leaf")
     out.exhaustive = True
-    out.assumptions += ["CPython numeric semantics as in PyNum.tla", "the box of 7 environments",
+    out.assumptions += ["CPython numeric semantics as in PyNum.tla", "the box of 9 environments (incl. all-equal operands and non-commuting words)",
                         "construction-time refusals for boolean operands are tolerated (documented type guard)"]
 
 
@@ -123,5 +146,7 @@ def replay(path, out):
     wd = kit.fresh_workdir("C03")
     d = json.loads(open(path).read())
     case = d["detail"]["case"]
-    recs = kit.drive("harness.c03", "drive_case", [case], None)
+    gen = kit.run_tlc("C03_Gen", "C03_Gen_quick")
+    envs = [p["envs"] for p in gen.printed() if "envs" in p]
+    recs = kit.drive("harness.c03", "drive_case", [case], {"envs": envs[0]})
     judge(out, recs, wd)
